@@ -204,6 +204,17 @@ Proof.
   split; [|split]; repeat constructor; simpl; try lia; try (apply wf_bytesb_spec; reflexivity).
 Qed.
 
+(* the invariants are satisfiable: a fresh writer satisfies all three *)
+Example c12_invariants_nonvacuous :
+  match writer_new (repeat 170%N 64) 64 with
+  | Ok w0 => AInv (mkD w0 []) g0 L0 /\ LInv (mkD w0 []) y0 am0 L0 /\ HInv w0 ah0
+  | _ => False
+  end.
+Proof.
+  destruct (writer_new (repeat 170%N 64) 64) as [w0| |] eqn:E; [|vm_compute in E; discriminate..].
+  split; [eapply AInv_new; eauto|]. split; [eapply LInv_new; eauto|eapply HInv_new; eauto].
+Qed.
+
 Print Assumptions c12_invariant.
 Print Assumptions c12_limit.
 Print Assumptions c12_atomic.
